@@ -376,6 +376,72 @@ Proof.
       destruct H as [H|[-> E]]; [left; split; [reflexivity|exact H]|right]. rewrite E. now left.
 Qed.
 
+(* ---------------------------------------------------------------- reachable states *)
+
+Lemma le_update {T} c (d : list (entry T)) x : le_all c d -> le_all c (v_update d c x).
+Proof.
+  intros H. rewrite v_update_eq. destruct d as [|[lv lx] rest]; [repeat constructor; cbn; lia|].
+  inversion H; subst. destruct (lv =? c); constructor; cbn in *; auto; lia.
+Qed.
+Lemma le_remove {T} c (d : list (entry T)) : le_all c d -> le_all c (v_remove d c).
+Proof.
+  intros H. rewrite v_remove_eq. destruct d as [|[lv [y|]] rest]; [constructor| |exact H].
+  inversion H; subst. destruct (lv =? c).
+  - destruct rest; [constructor|constructor; cbn in *; auto].
+  - constructor; [cbn; lia|exact H].
+Qed.
+
+Lemma rs_update_le c rs t rr :
+  Forall (fun p => le_all c (snd p)) rs -> Forall (fun p => le_all c (snd p)) (rs_update rs t rr c).
+Proof.
+  intros H. unfold rs_update, rs_remove_rtype, rs_at.
+  destruct ((rr =? 0) && update_empty_rrset_is_remove);
+    (apply Forall_al_upd; [|constructor|exact H]); intros d Hd; [now apply le_remove|now apply le_update].
+Qed.
+
+(* every zone made by the ZoneBuilder satisfies the invariant *)
+Lemma build_zinv is : zinv (build is) /\ z_cur (build is) = 0 /\ z_writer (build is) = None.
+Proof.
+  unfold build.
+  assert (H : forall s, (z_le 0 s /\ z_cur s = 0 /\ z_writer s = None) ->
+              (z_le 0 (fold_left build_one is s) /\ z_cur (fold_left build_one is s) = 0 /\ z_writer (fold_left build_one is s) = None)).
+  { induction is as [|i tl IH]; intros s Hs; [exact Hs|]. cbn [fold_left]. apply IH.
+    destruct Hs as [[Ha Hn] [Hc Hw]]. destruct i as [name t rr|name id]; cbn [build_one].
+    - destruct (name =? 0).
+      + repeat split; cbn [set_apex z_apex z_nodes z_cur z_writer]; auto. now apply rs_update_le.
+      + repeat split; cbn [set_nodes z_apex z_nodes z_cur z_writer]; auto.
+        apply (Forall_al_upd (fun n => Forall (fun q => le_all 0 (snd q)) (n_rrsets n) /\ le_all 0 (n_special n))); [| |exact Hn].
+        * intros n [H1 H2]. cbn [n_rrsets n_special]. split; [now apply rs_update_le|exact H2].
+        * split; constructor.
+    - destruct (name =? 0); [repeat split; auto|].
+      repeat split; cbn [set_nodes z_apex z_nodes z_cur z_writer]; auto.
+      apply (Forall_al_upd (fun n => Forall (fun q => le_all 0 (snd q)) (n_rrsets n) /\ le_all 0 (n_special n))); [| |exact Hn].
+      + intros n [H1 H2]. unfold n_update_special. cbn [n_rrsets n_special]. split; [exact H1|now apply le_update].
+      + split; constructor. }
+  destruct (H (mkz 0 [] [] None)) as [H1 [H2 H3]]; [repeat split; constructor|].
+  split; [|split; assumption]. unfold zinv. rewrite H3, H2. exact H1.
+Qed.
+
+Lemma run_zinv evs : forall s, zinv s -> z_cur s + ncommits evs + 2 < LIM ->
+  zinv (run s evs) /\ z_cur (run s evs) <= z_cur s + ncommits evs.
+Proof.
+  induction evs as [|e tl IH]; intros s Hinv Hlim; [cbn; split; [exact Hinv|lia]|].
+  assert (Hl : z_cur s + 2 < LIM) by (cbn [ncommits] in Hlim; destruct e; lia).
+  destruct (step_inv s e Hinv Hl) as [Hinv' [Hmono [Hup _]]].
+  cbn [run fold_left]. change (fold_left step tl (step s e)) with (run (step s e) tl).
+  assert (Hlim' : z_cur (step s e) + ncommits tl + 2 < LIM) by (cbn [ncommits] in Hlim; destruct e; lia).
+  destruct (IH (step s e) Hinv' Hlim') as [H1 H2]. split; [exact H1|].
+  cbn [ncommits]. destruct e; lia.
+Qed.
+
+(* the invariant holds in every state reachable from a built zone by API calls *)
+Theorem reachable_invariant : forall is evs,
+  ncommits evs + 2 < LIM -> zinv (run (build is) evs).
+Proof.
+  intros is evs Hlim. destruct (build_zinv is) as [H1 [H2 H3]].
+  apply run_zinv; [exact H1|]. rewrite H2. lia.
+Qed.
+
 (* ---------------------------------------------------------------- non-vacuity *)
 
 Definition wit_zone : zstate := build [IRrset 0 6 1; IRrset 2 1 11].
